@@ -10,7 +10,6 @@ import (
 	middlewareapi "github.com/oauth2-proxy/oauth2-proxy/v7/pkg/apis/middleware"
 	"github.com/oauth2-proxy/oauth2-proxy/v7/pkg/apis/options"
 	sessionsapi "github.com/oauth2-proxy/oauth2-proxy/v7/pkg/apis/sessions"
-	"github.com/oauth2-proxy/oauth2-proxy/v7/pkg/middleware"
 	"github.com/oauth2-proxy/oauth2-proxy/v7/providers"
 )
 
@@ -170,19 +169,31 @@ func vh_C01_gate_userinfo() {
 // verif: unwind=5 strlen=8 also=C01
 func vh_C07_proxy_wiring() {
 	g := vNewGate()
-	inj, err := middleware.NewRequestHeaderInjector([]options.Header{{
-		Name:   "X-Forwarded-User",
-		Values: []options.HeaderValue{{ClaimSource: &options.ClaimSource{Claim: "user"}}},
-	}})
+	// the chain as NewOAuthProxy builds it from the operator's header list: an injected identity
+	// header (unless this configuration is strip-only) and a header that is configured only to be
+	// stripped (a name without values)
+	hdrs := []options.Header{{Name: "X-Internal-Role"}}
+	stripOnly := ndBool("strip-only-configuration")
+	if !stripOnly {
+		hdrs = append(hdrs, options.Header{Name: "X-Forwarded-User",
+			Values: []options.HeaderValue{{ClaimSource: &options.ClaimSource{Claim: "user"}}}})
+	}
+	chain, err := buildHeadersChain(&options.Options{InjectRequestHeaders: hdrs})
 	verifAssume(err == nil)
-	g.p.headersChain = alice.New(inj)
+	g.p.headersChain = chain
 	spoof := ndString("client-x-forwarded-user")
 	g.req.Header["X-Forwarded-User"] = []string{spoof}
+	g.req.Header["X-Internal-Role"] = []string{ndString("client-x-internal-role")}
 	var seen http.Header
 	g.p.upstreamProxy = http.HandlerFunc(func(_ http.ResponseWriter, r *http.Request) { g.upstream++; seen = r.Header })
 	g.p.Proxy(g.rw, g.req)
 	if g.upstream > 0 {
 		verifReach("upstream")
+		verifAssert("C07.proxy.strip-only-header-never-reaches-upstream", len(seen["X-Internal-Role"]) == 0)
+		if stripOnly {
+			verifReach("strip-only")
+			return
+		}
 		got := seen["X-Forwarded-User"]
 		s := g.scope.Session
 		if s == nil || s.User == "" {
